@@ -1,5 +1,6 @@
 import QcoVerif.Properties.C03
 import QcoVerif.Lemmas.BuilderSrc
+import QcoVerif.Lemmas.FacadeSrc
 /-
   C03 — tie to the SOURCE TEXT (DESIGN.md §2.3b).  Kept in a file of its own that nothing imports: a change of the translated
   source functions breaks THESE obligations only, not the build of the property files that import Properties/C03.lean.
@@ -22,5 +23,24 @@ theorem decomposed_matches_source (nodes : List (Nat × Bool × List Nat)) :
 
 end BuilderSourceTie
 
+
+
+/-! ### the facade `DeclarativeCircuit` as written (Lemmas/FacadeSrc.lean; DESIGN.md §2.3b) -/
+
+section Facade
+open Qco.Py Qco.Gen.PySrc Qco.BuilderSrc Qco.FacadeSrc
+
+/-- **`operations`** is the structure's `decomposed_operations()` — nothing kept per wrapper (what seeded change C03-m6 altered). -/
+theorem facade_operations_matches_source (ops : Val) (h : ops = .list [.obj "Operation" 7 []]) :
+    callFn builderEnv Decl_operations [declObj 1 (stObj 2 [("decomposed_operations()", ops)]) addedObj regObj] = ops ∧
+    Decl_operations.decorators = ["property"] :=
+  FacadeSrc.operations_matches_source ops h
+
+/-- **`duration`** is the structure's duration. -/
+theorem facade_duration_matches_source (d : Int) :
+    callFn builderEnv Decl_duration [declObj 1 (stObj 2 [("duration", .int d)]) addedObj regObj] = .int d :=
+  FacadeSrc.duration_matches_source d
+
+end Facade
 
 end Qco.C03
